@@ -205,10 +205,18 @@ class Assembly(composites.Composite):
     def moveTo(self, locator):
         """Move an assembly somewhere else."""
         oldSymmetryFactor = self.getSymmetryFactor()
+        oldLocator = self.spatialLocator
         composites.Composite.moveTo(self, locator)
         if self.lastLocationLabel != self.DATABASE:
             self.p.numMoves += 1
             self.p.daysSinceLastMove = 0.0
+        # release the location this assembly came from, unless another assembly has taken it in the meantime
+        if (
+            isinstance(oldLocator, grids.IndexLocation)
+            and not isinstance(oldLocator, grids.MultiIndexLocation)
+            and self.parent.childrenByLocator.get(oldLocator) is self
+        ):
+            del self.parent.childrenByLocator[oldLocator]
         self.parent.childrenByLocator[locator] = self
         # symmetry may have changed (either moving on or off of symmetry line)
         self.clearCache()
